@@ -28,7 +28,7 @@ version = "0.0.0"
 edition = "2021"
 
 [dependencies]
-derive-where = { path = "/repo", features = [%s] }
+derive-where = { path = "%s", features = [%s] }
 %s
 
 [workspace]
@@ -62,12 +62,12 @@ def run(prop):
         for cfg in k['probe'].get('configs', ['default']):
             by_cfg.setdefault(cfg, []).append(k)
     for cfg, ks in by_cfg.items():
-        d = os.path.join(VERIF, 'work', 'kfprobe-%s-%s' % (prop, cfg))
+        d = os.path.join(runner.WORK, 'kfprobe-%s-%s' % (prop, cfg))
         os.makedirs(os.path.join(d, 'src'), exist_ok=True)
         z = cfg in ('zeroize', 'zod', 'safe-zod')
         with open(os.path.join(d, 'Cargo.toml'), 'w') as f:
-            f.write(CARGO % (', '.join('"%s"' % x for x in FEATURES[cfg]), 'zeroize = "1"' if z else ''))
-        shutil.copy('/repo/Cargo.lock', os.path.join(d, 'Cargo.lock'))
+            f.write(CARGO % (runner.REPO, ', '.join('"%s"' % x for x in FEATURES[cfg]), 'zeroize = "1"' if z else ''))
+        shutil.copy(runner.REPO + '/Cargo.lock', os.path.join(d, 'Cargo.lock'))
         src = ['#![allow(warnings)]']
         ranges = []
         line = 2
@@ -80,7 +80,7 @@ def run(prop):
         with open(os.path.join(d, 'src', 'main.rs'), 'w') as f:
             f.write('\n'.join(src) + '\n')
         env = dict(os.environ)
-        env.update(CARGO_TARGET_DIR=os.path.join(VERIF, 'target', 'exec-' + cfg), CARGO_NET_OFFLINE='true')
+        env.update(CARGO_TARGET_DIR=os.path.join(runner.TARGET, 'exec-' + cfg), CARGO_NET_OFFLINE='true')
         args = ['cargo'] + (['+nightly'] if cfg == 'nightly' else []) + ['build', '--offline', '--message-format=json', '-q']
         p = subprocess.run(args, cwd=d, env=env, stdout=subprocess.PIPE, stderr=subprocess.PIPE, text=True)
         per = {i: [] for i in range(len(ks))}
